@@ -85,6 +85,9 @@ Definition vkris (l : list kek_recipient_info) : V := VL (map (fun r => VO (OKri
 
 (* first component of a run_mut outcome: the returned value *)
 Definition value_of {A B} (r : res (A * B)) : res A := let* (v, _) := r in Ok v.
+(* outcome of x.pack(self, writer): returns None; the writer afterwards has the model's node appended *)
+Definition packed (self : V) (t : option tag) (ws : list asn1) (n : res asn1) : res (V * list V) :=
+  let* x := n in Ok (VN, [self; VO (OWriter t (ws ++ [x]))]).
 
 (* "name/kw1,kw2" -> (name, "kw1,kw2") *)
 Fixpoint split_slash (s : string) : string * string :=
